@@ -527,6 +527,7 @@ pub fn property() -> Property {
             "the transliteration is a trusted model of the page script (TypeScript cannot be built or run in this sandbox); a change to main.ts alone is invisible (its SHA-256 is recorded in the evidence)",
             "traps are observed as native panics of the same Rust code, not in a WASM build",
         ],
+        fuzz: None,
         families,
         prelude: None,
         epilogue: Some(Box::new(|_, rec| {
